@@ -41,6 +41,13 @@ type c15SSHClient struct {
 	Chunk     int         `json:"chunk"`           // write chunk size on both legs
 	Exit      int         `json:"exit"`            // exit status the backend reports
 	Leave     bool        `json:"leave,omitempty"` // fault: the client drops the connection right after its requests
+	// Hold: a slow reader - the client reads nothing of the output until it has written all of its input, and the
+	// output is larger than the ssh channel window (2 MiB), so the relay towards the client stalls on flow control
+	// while the relay towards the backend is busy
+	Hold bool `json:"hold,omitempty"`
+	// QuickExit: the backend's command does not read its input - output, exit status and channel close follow each
+	// other at once (the client's input may then be cut off legitimately; the output may not)
+	QuickExit bool `json:"quick_exit,omitempty"`
 }
 
 func genC15SSH(r *Rng, p *c15Params, sc *Scenario) {
@@ -91,13 +98,29 @@ func genC15SSH(r *Rng, p *c15Params, sc *Scenario) {
 		if r.Chance(0.15) {
 			out = r.Bytes(r.Range(20000, 65536))
 		}
-		cl.Stdin, cl.Output = hex.EncodeToString(in), hex.EncodeToString(out)
 		cl.Leave = r.Chance(0.08)
+		if !cl.Leave && r.Chance(0.04) {
+			cl.Hold = true
+			cl.Chunk = 32768
+			in = r.Bytes(r.Range(40000, 65536))
+			out = r.Bytes(r.Range(2<<20+1, 2<<20+600000))
+		}
+		if !cl.Hold && r.Chance(0.3) {
+			cl.QuickExit = true
+		}
+		cl.Stdin, cl.Output = hex.EncodeToString(in), hex.EncodeToString(out)
 		p.SSH = append(p.SSH, cl)
 		cj, _ := json.Marshal(cl)
 		sc.Actors = append(sc.Actors, Actor{Kind: "sshc", Name: fmt.Sprintf("c%d", c), Src: clientAddr(c), Dst: fmt.Sprintf("%s:%d", sensorIP, p.Port), Ops: []Op{{K: "c15ssh", Exp: cj}}})
 	}
 	sc.Class = "ssh"
+	if r.Chance(0.4) {
+		// the proxy's relay goroutines (two data directions, two request directions per channel) give way to each
+		// other at their blocking points
+		p.YieldPct = []int{20, 50, 80}[r.Intn(3)]
+		p.YieldRounds = []int{1, 4}[r.Intn(2)]
+		sc.Class += " yields"
+	}
 }
 
 // chopConn writes in chunks and gives way between them (segmentation of a library client's leg).
@@ -203,8 +226,10 @@ func c15SSHBackend(l net.Listener, clients []c15SSHClient, lg *c15SSHBackendLog)
 						}
 					}
 				}()
+				stdinEOF := make(chan struct{})
 				go func() {
 					// everything the client sends on the channel
+					defer close(stdinEOF)
 					buf := make([]byte, 4096)
 					for {
 						n, err := ch.Read(buf)
@@ -234,10 +259,17 @@ func c15SSHBackend(l net.Listener, clients []c15SSHClient, lg *c15SSHBackendLog)
 							return
 						}
 						out = out[k:]
-						time.Sleep(time.Millisecond)
+						if !cl.Hold && !cl.QuickExit {
+							time.Sleep(time.Millisecond)
+						}
 					}
 					// let the client's input arrive before the channel closes (a command that reads its stdin)
-					time.Sleep(2 * time.Second)
+					if !cl.QuickExit {
+						time.Sleep(2 * time.Second)
+					}
+					if cl.Hold {
+						<-stdinEOF // ... to its end (the slow client writes late)
+					}
 					ch.SendRequest("exit-status", false, ssh.Marshal(struct{ S uint32 }{uint32(cl.Exit)}))
 					ch.Close()
 				}()
@@ -365,6 +397,14 @@ func runC15SSH(t *testing.T, sc *Scenario, p *c15Params) Result {
 					return // the connection drops (deferred closes)
 				}
 				in, _ := hex.DecodeString(cl.Stdin)
+				if cl.Hold {
+					// let the output pile up against the channel window first, then write, then read
+					time.Sleep(3 * time.Second)
+					ch.Write(in)
+					ch.CloseWrite()
+					out.Output, _ = io.ReadAll(ch)
+					return
+				}
 				go func() {
 					ch.Write(in)
 					ch.CloseWrite()
@@ -374,6 +414,7 @@ func runC15SSH(t *testing.T, sc *Scenario, p *c15Params) Result {
 		}
 		w.Play()
 		w.Drain()
+		debugDumpGoroutines()
 	})
 	res.Digest = traceDigest(obs, map[string]bool{"ssh.sessionid": true, "ssh.recording": true})
 	res.Steps, res.SimMs = obs.Steps, obs.SimMs
@@ -400,7 +441,22 @@ func runC15SSH(t *testing.T, sc *Scenario, p *c15Params) Result {
 	}
 	lg.mu.Lock()
 	defer lg.mu.Unlock()
+	played := map[string]bool{} // (a minimised scenario may have lost some of its clients)
+	srcOf := map[string]string{}
+	for _, a := range sc.Actors {
+		for _, o := range a.Ops {
+			if o.K == "c15ssh" {
+				var c c15SSHClient
+				json.Unmarshal(o.Exp, &c)
+				played[c.User] = true
+				srcOf[c.User] = a.Src
+			}
+		}
+	}
 	for ai, cl := range p.SSH {
+		if !played[cl.User] {
+			continue
+		}
 		out := outs[cl.User]
 		if out == nil || !out.Done {
 			res.Violate("client-never-finished", site, fmt.Sprintf("client %d (%s) is still waiting after the drain (logged in: %v, output so far %d bytes)", ai, cl.User, out != nil && out.LoggedIn, func() int {
@@ -431,8 +487,8 @@ func runC15SSH(t *testing.T, sc *Scenario, p *c15Params) Result {
 		var evpw []string
 		for _, e := range obs.Events {
 			if e.M["type"] == "password-authentication" && fmt.Sprint(e.M["ssh.username"]) == cl.User {
-				if eventSrc(e.M) != sc.Actors[ai].Src {
-					res.Violate("event-carries-other-address", site, fmt.Sprintf("authentication event of %s attributed to %s, client is %s", cl.User, eventSrc(e.M), sc.Actors[ai].Src))
+				if eventSrc(e.M) != srcOf[cl.User] {
+					res.Violate("event-carries-other-address", site, fmt.Sprintf("authentication event of %s attributed to %s, client is %s", cl.User, eventSrc(e.M), srcOf[cl.User]))
 					return res
 				}
 				evpw = append(evpw, fmt.Sprint(e.M["ssh.password"]))
@@ -477,7 +533,9 @@ func runC15SSH(t *testing.T, sc *Scenario, p *c15Params) Result {
 			}
 		}
 		in, _ := hex.DecodeString(cl.Stdin)
-		if !bytes.Equal(lg.Stdin[cl.User], in) {
+		if cl.QuickExit && bytes.HasPrefix(in, lg.Stdin[cl.User]) {
+			// the command ended without reading its input to the end
+		} else if !bytes.Equal(lg.Stdin[cl.User], in) {
 			res.Violate("channel-data-not-relayed-to-backend", site, fmt.Sprintf("client %d (%s) wrote %d bytes to the channel, the backend read %d bytes (equal prefix %d)", ai, cl.User, len(in), len(lg.Stdin[cl.User]), commonPrefix(in, lg.Stdin[cl.User])))
 			return res
 		}
@@ -489,7 +547,7 @@ func runC15SSH(t *testing.T, sc *Scenario, p *c15Params) Result {
 		// the requests are on record
 		seen := map[string]int{}
 		for _, e := range obs.Events {
-			if e.M["type"] == "ssh-request" && eventSrc(e.M) == sc.Actors[ai].Src {
+			if e.M["type"] == "ssh-request" && eventSrc(e.M) == srcOf[cl.User] {
 				seen[fmt.Sprint(e.M["ssh.request-type"])]++
 			}
 		}
@@ -500,6 +558,9 @@ func runC15SSH(t *testing.T, sc *Scenario, p *c15Params) Result {
 			}
 		}
 		res.probe("ssh-sessions-verified", 1)
+		if cl.Hold {
+			res.probe("ssh-slow-reader-sessions", 1)
+		}
 	}
 	return res
 }
